@@ -128,6 +128,17 @@ def snapshot(roots):
     return ';'.join(part) + '|' + ';'.join(contents)
 
 
+def cross_groups(named):
+    """Groups of aliased paths spanning more than one of the named objects (mutable state shared between them)."""
+    ps = []
+    for name, x in named:
+        walk(name, x, ps, is_root=True)
+    groups = {}
+    for p, x in ps:
+        groups.setdefault(identity(x), []).append(p)
+    return [sorted(g) for g in groups.values() if len({p.split('/')[0] for p in g}) > 1]
+
+
 def canon_model_snapshot(s):
     part, _, contents = s.partition('|')
     groups = sorted(','.join(sorted(g.split(','))) for g in part.split(';') if g)
@@ -290,6 +301,13 @@ def build_value(spec):
         return _namedtuple()(*[build_value(v) for v in spec['items']])
     if t == 'array':
         return np.zeros(spec['n'])
+    if t == 'uncopyable':   # objects copy.deepcopy cannot copy
+        if spec['what'] == 'generator':
+            return (i for i in range(3))
+        if spec['what'] == 'dict_keys':
+            return {'k': 1}.keys()
+        import threading
+        return threading.Lock()
     raise ValueError(t)
 
 
@@ -299,13 +317,16 @@ def spec_children(spec):
         return [(k, v) for k, v in spec['entries']]
     if t == 'array':
         return [(str(i), 0) for i in range(spec['n'])]
+    if t == 'uncopyable':
+        return []
     return [(str(i), v) for i, v in enumerate(spec['items'])]
 
 
 def spec_nodes(spec, path, key):
     """Model-side construction plan, outermost first: [{path, key, kind, imm}]; plus the paths (relative to the
     object) of the inner lists / dicts / arrays, for later in-place edits."""
-    kind = {'list': 'list', 'dict': 'dict', 'tuple': 'tuple', 'namedtuple': 'tuple', 'array': 'array'}[spec['t']]
+    kind = {'list': 'list', 'dict': 'dict', 'tuple': 'tuple', 'namedtuple': 'tuple', 'array': 'array',
+            'uncopyable': 'uncopyable'}[spec['t']]
     node = {'path': path, 'key': key, 'kind': kind, 'imm': []}
     nodes, inner = [node], {'list': [], 'dict': [], 'array': []}
     if kind in inner:
@@ -425,6 +446,7 @@ class RealWorld:
         self.snaps = []
         self.keep = []
         self.snap = snap
+        self.failed_copies = []
 
     def exec(self, cmd):
         c = cmd['c']
@@ -443,6 +465,13 @@ class RealWorld:
             self.roots[cmd['r']] = {k: self.roots[r] for k, r in cmd['entries']}
         elif c == 'copy':
             self.roots[cmd['r']] = COPY_ROUTES[cmd.get('route', 'method')](self.roots[cmd['of']])
+        elif c == 'copyfail':
+            try:
+                COPY_ROUTES[cmd.get('route', 'method')](self.roots[cmd['of']])
+            except Exception as e:   # noqa: BLE001
+                self.failed_copies.append(type(e).__name__)
+            else:
+                raise AssertionError('copy of an object with an uncopyable attribute did not raise')
         elif c == 'op':
             apply_op(self.classes[cmd['r']] if cmd['r'] in self.classes else self.roots[cmd['r']], cmd['op'], self)
         elif c == 'subadd':
